@@ -15,9 +15,14 @@ import (
 
 // ---- C15: round trip, exact consumption, framing, prefixes ----------------------------------------------
 
-func encodeMsg(p MessagePayload) ([]byte, error) {
+func encodeMsg(p MessagePayload) (out []byte, err error) {
+	defer func() {
+		if r := recover(); r != nil {
+			err = fmt.Errorf("encoder panicked: %v", r)
+		}
+	}()
 	var buf bytes.Buffer
-	err := (Message{Payload: p}).Serialize(&buf)
+	err = (Message{Payload: p}).Serialize(&buf)
 	return buf.Bytes(), err
 }
 
